@@ -27,6 +27,8 @@ def values_for(u, t):
 
 
 def task(item):
+    if item[0] == 'namecase':
+        return rtbase.name_case_task(['wire'])
     pos, i = item
     u = rtbase.universe(TIER[0])
     t = u.ir_type(pos, i)
@@ -76,7 +78,7 @@ def run(tier, seed):
     except rtbase.UniverseError as e:
         rtbase.universe_failure(r, PROP, e)
         return r.finish('packed universe could not be built')
-    items = rtbase.items(tier)
+    items = rtbase.items(tier) + [('namecase', 0)]
     r.bounds.update({'shapes': len(u.shapes), 'positions': list(rtbase.POSITIONS), 'nesting': 2 if tier == 'quick' else 3})
     for it in items[:2] + items[len(items) // 2:len(items) // 2 + 2]:
         t = u.ir_type(*it)
